@@ -13,6 +13,10 @@ def stats_chain(r, coin, nb, mode):
         val = (lambda: 0) if mode == 'zero' else (lambda: r.choice([0, 1, 546, r.randrange(10**10), 50 * 10**8, 50 * 10**8 + 1, 25 * 10**8, 2**56])) if mode == 'big' else (lambda: r.choice([0, 1, 5 * 10**9, 5 * 10**9 + 7, r.randrange(10**9)]))
         cbv = r.choice([0, 1, 50 * 10**8 - 1, 50 * 10**8, 50 * 10**8 + 12345, 25 * 10**8 + 5, 2**40]) if mode != 'zero' else 0
         txs = [coinbase_tx(h, [(cbv, gen.script_zoo(r, r.choice(kinds))[1]), (val(), gen.script_zoo(r, r.choice(kinds))[1])], extra=gen.rb(r, 2))]
+        if mode in ('big', 'types') and h % 2 == 1:
+            # coinbase input scripts of 0, 1, 2, 100, 101 and 300 bytes: what makes a coinbase is its single null outpoint, not the length of its script
+            sl = [0, 1, 2, 100, 101, 300][(h // 2 + nb) % 6]
+            txs[0] = Tx([(b'\x00' * 32, 0xffffffff, gen.rb(r, sl), 0xffffffff)], txs[0].outputs)
         ntx = r.randrange(0, 4)
         for j in range(ntx):
             outs = [(val(), gen.script_zoo(r, r.choice(kinds) if mode == 'types' or r.random() < 0.5 else 'p2pkh')[1]) for _ in range(r.randrange(1, 4))]
@@ -27,6 +31,10 @@ def stats_chain(r, coin, nb, mode):
             # the largest transaction of the block uses over-long CompactSize encodings (its size is the size of its bytes on disk without witness data)
             wd = {'in': r.choice([3, 5, 9]), 'out': r.choice([3, 5, 9]), ('isl', 0): r.choice([3, 5, 9]), ('osl', 0): r.choice([3, 5, 9])}
             txs.append(Tx([(gen.rb(r, 32), 1, b'\x00' * (400 + h), 5)], [(3, P2PKH(gen.rb(r, 20)))], widths=wd, witness=([[gen.rb(r, 600)]] if h % 4 == 0 else None)))
+        if mode == 'ties' and h == 1:
+            # the size record is held by a transaction whose script length sits exactly on a CompactSize width boundary (252 / 253 / 65535 / 65536)
+            ln = [65535, 65536, 253, 252][(nb + len(blocks)) % 4]
+            txs.append(Tx([(gen.rb(r, 32), 1, b'', 5)], [(4, b'\x6a' + gen.rb(r, ln - 1))]))
         if mode == 'types' and h == 0:
             # a coinbase-looking tx that is NOT the first tx, and near-coinbase inputs
             txs.append(Tx([(b'\x00' * 32, 0xffffffff, b'\x01', 0)], [(60 * 10**8, P2PKH(gen.rb(r, 20)))]))
@@ -62,9 +70,11 @@ def explore(ck):
             b = Block(prev, txs, time=1300000000 + 600 * h); blocks.append(b); prev = b.hash
         c = Case('alltypes_' + coin, coin).simple_layout(blocks); c.meta.update(mode='types'); cases.append(c)
     # height windows around halvings and the 64th halving
-    for H in ([209999, 210001, 420000, 630005, 13439999, 13440000] if quick else [1, 210001, 250000, 630005, 6930001, 209999, 210000, 419999, 420000, 6929999, 6930000, 13229999, 13439999, 13440000, 13440001, 14000000]):
-        blocks = stats_chain(r, 'bitcoin', 3, 'big')
-        c = Case('hw%d' % H, 'bitcoin').simple_layout(blocks, start_height=H - 1); c.start = H; c.meta.update(mode='halving'); cases.append(c)
+    for kw, H in enumerate([209999, 210001, 420000, 630005, 13439999, 13440000] if quick else [1, 210001, 250000, 630005, 6930001, 209999, 210000, 419999, 420000, 6929999, 6930000, 13229999, 13439999, 13440000, 13440001, 14000000]):
+        # the schedule of the property (50 coins, halved every 210 000 heights) applies to every coin: two coins per window, all eight coins at heights >= 210 000
+        for hcoin in (gen.ALL_COINS[(2 * kw) % 8], gen.ALL_COINS[(2 * kw + 1) % 8]):
+            blocks = stats_chain(r, hcoin, 3, 'big')
+            c = Case('hw%d_%s' % (H, hcoin), hcoin).simple_layout(blocks, start_height=H - 1); c.start = H; c.meta.update(mode='halving'); cases.append(c)
     def nontrivial(c, m):
         st = m['stat']
         if not st: return None
